@@ -3,6 +3,7 @@ Proof: props/C15.v over the statement list of BaseHandler.__call__ extracted fro
 Correspondence / search: requests drawn from a CE grammar with injected faults against BaseHandler applications;
 outcome class (200 + content type | error document | raised) is observed, bodies are read to their end."""
 import random
+from urllib.parse import unquote
 import re
 
 from common import Report, known_findings, proof_phase, use_repo
@@ -120,7 +121,12 @@ def main():
             return "".join(rng.choice("xfq.[]:,&<>=()%0123456789 \"'") for _ in range(rng.randint(1, 14)))
         if k == 12:
             return rng.choice(["st[0]", "q[0:1][0:1]", "q.a[0]", "g[0:1]", "b[0]", "st.n[0]", "lz[0:1]", "q[1]"])
-        return rng.choice(["x" + "[0:1]" * 40, "a" * 3000, "x[0:" + "9" * 400 + "]"])
+        return rng.choice(["x" + "[0:1]" * 40, "a" * 3000, "x[0:" + "9" * 400 + "]",
+                           # requests long enough for the error document to echo several KiB
+                           "a" * 6000, "x." + "v" * 5000, "dap4.ce=/" + "x" * 5000, "x[" + ":".join(["1"] * 2500) + "]",
+                           # record ranges far beyond the data, on lazy and array-backed sequences
+                           "lz[0:99999999999999999999]", "lz[0:9223372036854775807]", "lz[99999999999999999999]",
+                           "lz.k[0:1:99999999999999999999]", "q[0:99999999999999999999]", "lz[0:99999999999999999999:99999999999999999999]"])
 
     paths_ok = ["/d.dds", "/d.das", "/d.dods", "/d.ascii", "/d.asc", "/d.ver", "/d.html", "/.dods", "/deep/er/d.dods", "/d.x.dods"]
     paths_odd = ["/d", "/", "", "/d.", "/d.xyz", "/d.DODS", "/.", "/d.dods/", "/d dods", "/d.dods.", "/d..dds", "/d.json", "/d.nc",
@@ -164,7 +170,8 @@ def main():
                 outcome = "raised-reading-body:" + type(e).__name__
                 body = None
         if outcome is None:
-            ext = path.rsplit(".", 1)[-1] if "." in path else None
+            upath = unquote(path)     # the server routes on the decoded path: /d%2Edods is a request for d.dods
+            ext = upath.rsplit(".", 1)[-1] if "." in upath else None
             if res.status_int == 200:
                 want = CONTENT.get(ext)
                 if want is None or not (res.content_type or "").startswith(want):
